@@ -52,6 +52,7 @@ pub fn check(c: &Case, ctx: &mut Ctx) -> Result<(), Failure> {
     let mut since_reset = 0usize;
     let mut just_reset = false;
     let mut cps = 0;
+    let mut json_ok = true;
     let w = flush_len(&c.cfg);
     let mut classes: Vec<&'static str> = vec![];
     // a final checkpoint is always taken after the history
@@ -64,6 +65,8 @@ pub fn check(c: &Case, ctx: &mut Ctx) -> Result<(), Failure> {
                 fp.u(inp.scalar as u64);
                 let a = feed(&mut live, inp);
                 let b = feed(&mut shadow, inp);
+                let fin = |v: f64| v.is_finite() && v.abs() <= 1e150;
+                json_ok &= fin(inp.bar.o) && fin(inp.bar.h) && fin(inp.bar.l) && fin(inp.bar.c) && fin(inp.bar.v) && a.vals().iter().all(|v| v.is_finite());
                 since_reset += 1;
                 just_reset = false;
                 if !same_out(&a, &b, REL) {
@@ -114,6 +117,32 @@ pub fn check(c: &Case, ctx: &mut Ctx) -> Result<(), Failure> {
                     Ok(b2) if b2 == bytes => {}
                     Ok(_) => ctx.fail(format!("C06:{}:reserialize_differs", name), format!("{}: re-serializing the restored instance gives different bytes (history op {})", c.cfg.tag(), i))?,
                     Err(e) => ctx.fail(format!("C06:{}:serde_error", name), format!("re-serialize failed: {}", e))?,
+                }
+                // a second, self-describing format (serde_json), where the history so far is representable in it:
+                // only finite inputs of moderate size since construction (JSON has no NaN/inf; DESIGN 4.0)
+                if json_ok {
+                    match live.roundtrip_json((bytes.len() + cps) % 2 == 1) {
+                        Ok(Some(mut z)) => {
+                            ctx.label("json_roundtrip");
+                            if z.display() != live.display() || z.period() != live.period() || z.multiplier().map(f64::to_bits) != live.multiplier().map(f64::to_bits) {
+                                ctx.fail(format!("C06:{}:params_changed", name), format!("{}: restored from JSON: Display {:?} period {:?} vs original {:?} {:?}", c.cfg.tag(), z.display(), z.period(), live.display(), live.period()))?;
+                            }
+                            let mut x = live.clone();
+                            for (s, inp) in c.continuation.iter().enumerate() {
+                                let ox = feed(&mut x, inp);
+                                let oz = feed(&mut z, inp);
+                                if !same_out(&ox, &oz, REL) {
+                                    ctx.fail(
+                                        format!("C06:{}:restored_diverges", name),
+                                        format!("{}: checkpoint at history op {} ({} inputs since reset, {}) through serde_json: continuation step {} input {:?}: original {:?}, restored {:?}", c.cfg.tag(), i, since_reset, class, s, inp, ox.vals(), oz.vals()),
+                                    )?;
+                                    break;
+                                }
+                            }
+                        }
+                        Ok(None) => ctx.label("json_state_not_representable"),
+                        Err(e) => ctx.fail(format!("C06:{}:serde_error", name), format!("{}: at history op {}: {}", c.cfg.tag(), i, e))?,
+                    }
                 }
                 // continuation on copies of (never-serialized state) and (restored state)
                 let mut x = live.clone();
